@@ -24,6 +24,8 @@ func (a *Anchors) labelObj(obj types.Object) string {
 			return ""
 		case a.is(obj, a.DepRunner):
 			return "deps"
+		case a.ShellExec != nil && a.ShellExec != a.CmdRunner && a.is(obj, a.ShellExec):
+			return "runcommand" // the helper the command runner hands the shell execution to stands for the RunCommand call in its callers
 		case a.IsCmdEvent(obj):
 			return "cmd"
 		case a.is(obj, a.Preconditions):
@@ -59,8 +61,6 @@ func (a *Anchors) labelObj(obj types.Object) string {
 			return "isexit"
 		case obj == a.RunCommandObj:
 			return "runcommand"
-		case a.ShellExec != nil && a.ShellExec != a.CmdRunner && a.is(obj, a.ShellExec):
-			return "runcommand" // the helper the command runner hands the shell execution to stands for the RunCommand call in its callers
 		}
 		return ""
 	}
@@ -78,6 +78,7 @@ func checkC01(c *Check, a *Anchors) {
 	c04RecordAfterSuccess(c, a) // a fingerprint recorded before the commands lets a second, concurrent reference of the dependency return "up to date" while the first is still running its commands
 	c06HashSeesInputs(c, a)     // a dependency call that is deduplicated against a call with other variables never runs
 	c06OnceKey(c, a)            // two distinct run: once dependencies must not share an execution key (one of them would never run)
+	namespaceAlwaysPrepended(c, a) // a dependency of an included task that keeps its un-namespaced name is bound to a task of another file: the listed dependency never runs
 	freshElements(c, a, "dep-elements-fresh") // a rendered dependency written back into the shared definition freezes the first call's name and variables: a later call of the task waits for the wrong dependency and starts its commands although the one listed for it never ran
 }
 
